@@ -5,8 +5,8 @@ warnings.simplefilter('ignore')
 from app_case import run
 
 PATTERNS = ['/a', '/a/', '/a/<b>', '/a/<b>/', '/<x+>', '/n/<k:int>', '/']
-BEH = ['ok', 'ok', 'raise', 'raise_http', 'return_http', 'nonbreaking_raise', 'nonbreaking_return', 'nonresponse']
-PATHS = ['/a', '/a/', '/a//', '/a/x', '/a/x/', '/a/x?y', '/a/x%y/', '/n/5', '/zzz', '/', '//a', '/a/é']
+BEH = ['ok', 'ok', 'ok_base', 'raise', 'raise_http', 'raise_http_odd', 'return_http', 'nonbreaking_raise', 'nonbreaking_return', 'nonresponse']
+PATHS = ['/a', '/a/', '/a//', '/a/x', '/a/x/', '/a/x?y', '/a/x%y/', '/n/5', '/n/' + '9' * 5000, '/zzz', '/', '//a', '/a/é', '/a/ /x']
 QUERIES = ['', 'q=1', 'a=1&b=%20', '\xff', 'x=\xe9\xfe']
 METHODS = ['GET', 'POST', 'HEAD', 'get', 'FOO']
 
@@ -20,7 +20,8 @@ def gen(rng, checks):
                            'behavior': rng.choice(BEH), 'slash_mode': rng.choice([None, None, 'redirect', 'rewrite', 'strict'])})
         yield {'routes': routes, 'slash_mode': rng.choice(['redirect', 'redirect', 'rewrite', 'strict']),
                'handler': rng.choice(['default', 'default', 'debug', 'reraise', 'broken_render']),
-               'request': {'path': rng.choice(PATHS), 'method': rng.choice(METHODS), 'query_latin1': rng.choice(QUERIES)},
+               'request': {'path': rng.choice(PATHS), 'method': rng.choice(METHODS), 'query_latin1': rng.choice(QUERIES),
+                           'accept': rng.choice([None, None, 'text/html', 'application/json', 'application/xml', '*/*'])},
                'check': checks}
 
 
